@@ -676,8 +676,17 @@ def a_reduce_series(lib, ins, p):
 
 
 Op("reduce_series", 1, ["series"], s_reduce_series, a_reduce_series, flags=F(order=True, index=True), weight=1.5, tags=["reduction"], src="{0}.{fn}()")
-Op("value_counts", 1, ["series"], lambda rng, ins: ({} if not isinstance(ins[0].pd.dtype, pd.CategoricalDtype) else None), lambda lib, ins, p: ins[0].value_counts(), flags=F(order=False, index=True), weight=0.7, tags=["reduction"], src="{0}.value_counts()")
-Op("unique", 1, ["series"], lambda rng, ins: ({} if not isinstance(ins[0].pd.dtype, pd.CategoricalDtype) else None), lambda lib, ins, p: (pd.Series(ins[0].unique(), name=ins[0].name) if lib == "pd" else ins[0].unique()), flags=F(order=False, index=False), weight=0.5, tags=["reduction"], src="{0}.unique()")
+def _exact_keys(s):
+    """float keys must be exact (multiples of 1/4096): a key that is the product of a reduction may differ by 1 ulp between
+    pandas' single pass and dask's tree combination, which turns precision noise into different groups"""
+    if getattr(s.dtype, "kind", "O") != "f":
+        return True
+    v = s.dropna().to_numpy()
+    return bool(((v * 4096) % 1 == 0).all())
+
+
+Op("value_counts", 1, ["series"], lambda rng, ins: ({} if not isinstance(ins[0].pd.dtype, pd.CategoricalDtype) and _exact_keys(ins[0].pd) else None), lambda lib, ins, p: ins[0].value_counts(), flags=F(order=False, index=True), weight=0.7, tags=["reduction"], src="{0}.value_counts()")
+Op("unique", 1, ["series"], lambda rng, ins: ({} if not isinstance(ins[0].pd.dtype, pd.CategoricalDtype) and _exact_keys(ins[0].pd) else None), lambda lib, ins, p: (pd.Series(ins[0].unique(), name=ins[0].name) if lib == "pd" else ins[0].unique()), flags=F(order=False, index=False), weight=0.5, tags=["reduction"], src="{0}.unique()")
 
 
 def s_groupby(rng, ins):
